@@ -4,6 +4,7 @@ from __future__ import annotations
 
 import importlib
 import itertools as itt
+import os
 
 from hypothesis import strategies as st
 
@@ -130,6 +131,8 @@ def bucket_features(case):
     f.add("mode:" + case["mode"])
     if c19.symbol_needed_twice(case["g"], items):
         f.add("symbol-twice")
+    if c19.plus_value_propagated(case["g"], items):
+        f.add("plus-value-propagated")
     if case["mode"] == "conditional" and {it["v"] for it in case["outcomes"]} & {n for it in items for n, _ in it["do"]}:
         # the normaliser sums over the outcome variables, so an outcome name that is also a fixed subscript is needed at two values
         f.add("symbol-twice")
@@ -161,7 +164,7 @@ def check(case, ignore_regions=False) -> Outcome:
         if REGIONS["reflexive"] in regions and "reflexive-subscript" in feats:
             out.excluded = REGIONS["reflexive"]
             return out
-        if REGIONS["plus"] in regions and "plus-mark" in feats:
+        if REGIONS["plus"] in regions and ("plus-value-propagated" in feats if os.environ.get("VF_C09_NARROW_PLUS", "1") == "1" else "plus-mark" in feats):
             out.excluded = REGIONS["plus"]
             return out
         if REGIONS["twice"] in regions and "symbol-twice" in feats:
